@@ -1,1 +1,27 @@
-PROP = {'id': 'C04', 'level': 'proof', 'functions': ['JobQueue._check_completions', 'JobQueue.process_queue', 'HpcSubmitter._update_completed_jobs', 'HpcSubmitter._cancel_job', 'Result.is_successful', 'Result.is_failed', 'Result.is_canceled'], 'native': ['JobQueue._check_completions', 'JobQueue.process_queue', 'HpcSubmitter.run'], 'records': ['JobQueue', 'HpcSubmitter', 'Job', 'Result'], 'min_obligations': 300, 'assumptions': ['AsyncJobInterface contracts (is_complete sticky, cancel never starts the process and records a non-zero canceled result) - AsyncCliCommand is checked against them separately', 'E-res and one result row per job name (C01/C08)'], 'not_decided': ['exactness in the "only if" direction at node level (a queued job is canceled only because a blocker failed): the contract proves every canceled job was flagged and left with no blockers, never started, and that unflagged jobs are never canceled; the failed-blocker witness is proved at submitter level only', 'closure (every flagged job with a failed blocker IS canceled) is checked by the bounded native harnesses only', 'detection latency'], 'explanation': 'Node level: _check_completions never starts anything, removes from the queue exactly the jobs it canceled (flagged, blockers emptied, canceled result), pops every canceled job again from `outstanding` before returning, and only shrinks blocker sets. Submitter level: _update_completed_jobs cancels only flagged not-submitted jobs with a blocker whose collected row has a non-zero code (or was canceled), each once, marks them done with an empty blocker set and exactly one canceled row, and leaves no not-submitted job waiting for a name that has an outcome.'}
+PROP = {'id': 'C04',
+ 'level': 'proof',
+ 'functions': ['JobQueue._check_completions',
+               'JobQueue.process_queue',
+               'HpcSubmitter._update_completed_jobs',
+               'HpcSubmitter._cancel_job',
+               'Result.is_successful',
+               'Result.is_failed',
+               'Result.is_canceled',
+               'AsyncCliCommand.cancel',
+               'AsyncCliCommand.is_complete'],
+ 'native': ['JobQueue._check_completions', 'JobQueue.process_queue', 'HpcSubmitter.run'],
+ 'records': ['JobQueue', 'HpcSubmitter', 'Job', 'Result'],
+ 'min_obligations': 300,
+ 'assumptions': ['AsyncJobInterface contracts (is_complete sticky, cancel never starts the process and records a non-zero canceled result) - AsyncCliCommand '
+                 'is checked against them separately',
+                 'E-res and one result row per job name (C01/C08)'],
+ 'not_decided': ['exactness in the "only if" direction at node level (a queued job is canceled only because a blocker failed): the contract proves every '
+                 'canceled job was flagged and left with no blockers, never started, and that unflagged jobs are never canceled; the failed-blocker witness is '
+                 'proved at submitter level only',
+                 'closure (every flagged job with a failed blocker IS canceled) is checked by the bounded native harnesses only',
+                 'detection latency'],
+ 'explanation': 'Node level: _check_completions never starts anything, removes from the queue exactly the jobs it canceled (flagged, blockers emptied, '
+                'canceled result), pops every canceled job again from `outstanding` before returning, and only shrinks blocker sets. Submitter level: '
+                '_update_completed_jobs cancels only flagged not-submitted jobs with a blocker whose collected row has a non-zero code (or was canceled), each '
+                'once, marks them done with an empty blocker set and exactly one canceled row, and leaves no not-submitted job waiting for a name that has an '
+                'outcome. the node-level AsyncCliCommand methods are proved to refine the AsyncJob interface contracts JobQueue is verified against.'}
